@@ -89,12 +89,14 @@ NormalTypesFor(L, r) ==   \* the types ensureNormalMemory expands with; {} = fai
        ELSE IF "DRAM" \in nt THEN {"DRAM"} ELSE IF "PMEM" \in nt THEN {"PMEM"}
        ELSE IF "HBM" \in nt THEN {"HBM"} ELSE {}
 
-InitialZone(L, r) ==     \* {} = the request is refused before any placement
+InitialZoneRaw(L, r) ==
     IF ~Valid(L, r) THEN {}
     ELSE LET z == InitZone0(L, r)
          IN IF z = {} THEN {}
             ELSE IF z \cap NormalNodes(L) # {} THEN z
             ELSE LET t == NormalTypesFor(L, r) IN IF t = {} THEN {} ELSE GrowNormal(L, z, t)
+\* nodes without memory are a starting point for the expansion but never part of the zone
+InitialZone(L, r) == InitialZoneRaw(L, r) \cap HasMem(L)     \* {} = the request is refused before any placement
 
 \* req.types as the allocator stores it after admission
 StoredTypes(L, r) ==
@@ -186,7 +188,7 @@ Commit(o) ==
 Realloc(i, X, T) ==
     /\ i \in DOMAIN req
     /\ LET r  == req[i]
-           nx == IF T = {} THEN X ELSE X \cap ByTypes(lay, T)
+           nx == (IF T = {} THEN X ELSE X \cap ByTypes(lay, T)) \cap HasMem(lay)
            ty == IF T = {} THEN TypesOfAll(lay, X) ELSE T
            noop == \/ (X = {} /\ T = {})
                    \/ (r.aff = X /\ r.types = T)
@@ -197,7 +199,8 @@ Realloc(i, X, T) ==
           ELSE LET grow == Expand(lay, zone[i] \cup nx, ty)
                    z0   == zone[i] \cup nx \cup grow
                    r2   == [r EXCEPT !.types = @ \cup ty \cup TypesOfAll(lay, grow)]   \* "requested types" grow with realloc
-                   P    == IF grow = {} THEN {}
+                   \* no further node found is an error only if a requested type is still missing from the zone
+                   P    == IF grow = {} /\ ~(ty \subseteq TypesOfAll(lay, zone[i] \cup nx)) THEN {}
                            ELSE {zn2 \in [DOMAIN zone -> SUBSET lay.nodes \ {{}}] :
                                     /\ zn2[i] = z0
                                     /\ MovesOK(lay, req, zone, zn2, i)
@@ -274,7 +277,8 @@ Step_StaleRefused ==
     \A o \in offers \ offers' : (last'.op = "Commit" /\ o.mut < mut) => last'.err
 \* C06: committing a fresh offer gives exactly what the offer promised (= what Allocate would do)
 Step_FreshCommits ==
-    \A o \in offers \ offers' : (last'.op = "Commit" /\ o.mut = mut /\ o.id \notin DOMAIN req) => ~last'.err
+    \A o \in offers \ offers' : (last'.op = "Commit" /\ o.mut = mut /\ o.id \notin DOMAIN req
+                                   /\ ~("amb" \in DOMAIN o /\ o.amb)) => ~last'.err
 
 Act_FailAtomic   == [][Step_FailAtomic]_vars
 Act_OfferPure    == [][Step_OfferPure]_vars
